@@ -34,7 +34,9 @@ const char* Detail_ParseSecondFractions_i64_std_ratio_1_1000000000__pkc8_pkc8_rc
 /* SafeDurationCast<seconds>(duration<Rep, ratio<unit>>): exact value * unit, or out_of_range (proved in chrono_guards) */
 static struct chr_duration_i64_std_ratio_1_1 cast_model(mint count, long unit, _Bool src_signed) { struct chr_duration_i64_std_ratio_1_1 r; r.__r = 0;
   char c = g_desig_off < g_n ? g_txt[g_desig_off] : 0; long want = c == 'W' ? 604800 : c == 'D' ? 86400 : c == 'H' ? 3600 : c == 'M' ? 60 : c == 'S' ? 1 : 0;
-  if (!g_have_val || unit != want || count != (g_neg ? -(mint)g_lastval : (mint)g_lastval) || src_signed != g_neg) g_contract_ok = 0;
+  /* a part of a negative duration is converted from its negated count; a count above 2^63 (no int64 negation) is converted from the unsigned count and the RESULT negated by the caller */
+  _Bool direct = src_signed == g_neg && count == (g_neg ? -(mint)g_lastval : (mint)g_lastval); _Bool via_unsigned = g_neg && !src_signed && count == (mint)g_lastval && g_lastval > 9223372036854775808UL;
+  if (!g_have_val || unit != want || !(direct || via_unsigned)) g_contract_ok = 0;
   g_parts++; mint exact = count * unit; if (exact > (mint)9223372036854775807L || exact < -(mint)9223372036854775807L - 1) { __verif_exc = EXC_std_out_of_range; return r; } r.__r = (long)exact; return r; }
 struct chr_duration_i64_std_ratio_1_1 Detail_SafeDurationCast_chr_duration_i64_std_ratio_1_1_i64_std_ratio_604800_1__rkchr_duration_i64_std_ratio_604800_1(const struct chr_duration_i64_std_ratio_604800_1* d) { return cast_model((mint)d->__r, 604800, 1); }
 struct chr_duration_i64_std_ratio_1_1 Detail_SafeDurationCast_chr_duration_i64_std_ratio_1_1_i64_std_ratio_86400_1__rkchr_duration_i64_std_ratio_86400_1(const struct chr_duration_i64_std_ratio_86400_1* d) { return cast_model((mint)d->__r, 86400, 1); }
